@@ -317,6 +317,53 @@ fn nest_sets() -> Vec<(Vec<(String, Tpl)>, bool)> {
     out
 }
 
+/// Long rings and chains (the walks must not give up with depth): `shape`
+///   0 include ring (body)      1 include chain (body)       2 include ring with a tail of 5
+///   3 include ring (in block)  4 ring alternating include / extends
+///   5 chain alternating include / extends                   6 extends chain with super()
+///   7 extends ring             8 include ring (component body)
+fn long_set(n: usize, shape: u8) -> Vec<(String, Tpl)> {
+    let total = if shape == 2 { n + 5 } else { n };
+    let names: Vec<String> = (0..total).map(|i| format!("t{i:03}")).collect();
+    let mut set = vec![];
+    for i in 0..total {
+        let mut node = Node { name: names[i].clone(), ..Default::default() };
+        let ring = matches!(shape, 0 | 2 | 3 | 4 | 7 | 8);
+        let next = if shape == 2 {
+            // nodes 0..5 are the tail, 5..n+5 the ring
+            if i + 1 < total { Some(i + 1) } else { Some(5) }
+        } else if i + 1 < total {
+            Some(i + 1)
+        } else if ring {
+            Some(0)
+        } else {
+            None
+        };
+        if let Some(j) = next {
+            let tgt = names[j].clone();
+            match shape {
+                0 | 1 | 2 => node.inc_body.push(tgt),
+                3 => node.inc_block.push(tgt),
+                8 => node.inc_comp.push(tgt),
+                4 | 5 => {
+                    if i % 2 == 0 {
+                        node.inc_body.push(tgt)
+                    } else {
+                        node.extends = Some(tgt);
+                        node.sup = true;
+                    }
+                }
+                _ => {
+                    node.extends = Some(tgt);
+                    node.sup = true;
+                }
+            }
+        }
+        set.push((node.name.clone(), build(i, &node)));
+    }
+    set
+}
+
 fn main() {
     if std::env::args().nth(1).as_deref() == Some("render-child") {
         child_main();
@@ -454,6 +501,25 @@ fn main() {
         }
     }
 
+    // --- long rings and chains: 33, 40, 64, 100 templates
+    let mut long = 0usize;
+    for n in [33usize, 40, 64, 100] {
+        for shape in 0..9u8 {
+            if !thorough && n > 40 && !matches!(shape, 0 | 1 | 4 | 6) {
+                continue;
+            }
+            let mut s = long_set(n, shape);
+            run.case(&none, &s, &["long"], None);
+            long += 1;
+            if thorough || n == 40 {
+                // registration order must not matter
+                s.reverse();
+                run.case(&none, &s, &["long"], None);
+                long += 1;
+            }
+        }
+    }
+
     // --- block nesting across inheritance (no include): D13 class
     {
         let all = nest_sets();
@@ -466,6 +532,7 @@ fn main() {
     }
 
     let Run { graph, render, mut meta, accepted, rejected, renders, aborted, .. } = run;
+    meta.extra.insert("long_ring_and_chain_sets".into(), json!(long));
     meta.extra.insert("exhaustive_uniform_sets".into(), json!(exhaustive));
     meta.extra.insert("exhaustive_uniform_space".into(), json!(format!("all digraphs (self-loops included) on 1..={nmax_exh} templates x edge kind in {{extends, include in body, include in block, include in component body}}")));
     meta.extra.insert("uniform4_sampled".into(), json!(sampled4));
